@@ -178,7 +178,22 @@ def derive_tree(rng, dflt, depth=0):
 
 
 PLURAL_KEY = re.compile(r"_(zero|one|two|few|many|other)$")
-FAULTS = ["null_in_default", "shape_mismatch", "two_fallbacks", "unknown_formatter", "nested_ranges", "bad_key"]
+FAULTS = ["null_in_default", "shape_mismatch", "two_fallbacks", "unknown_formatter", "nested_ranges", "bad_key",
+          "fk_cycle2", "fk_cycle3", "fk_self_next_to_chain", "fk_missing_twice", "fk_subkeys_twice", "fk_cycle2", "fk_missing_twice"]
+
+
+def fk_fault_members(f, ref):
+    """ONE logical fault that involves several keys; ref(name) spells the foreign-key path of a sibling"""
+    t = lambda n, pre="": ("str", "%s$t(%s)" % (pre, ref(n)))        # noqa: E731
+    if f == "fk_cycle2":
+        return [("fka", t("fkb")), ("fkb", t("fka", "x "))]
+    if f == "fk_cycle3":
+        return [("fka", t("fkb")), ("fkb", t("fkc")), ("fkc", t("fka", "<b>y</b> "))]
+    if f == "fk_self_next_to_chain":
+        return [("fks", t("fks")), ("fk1", t("fk2")), ("fk2", t("fk3")), ("fk3", ("str", "end")), ("fk0", t("fk1"))]
+    if f == "fk_missing_twice":
+        return [("fkm1", t("fknope")), ("fkm2", t("fknope", "again ")), ("fkm0", ("str", "{{ v }} " + "$t(%s)" % ref("fknope")))]
+    return [("fkg", ("obj", [("x", ("str", "inside"))])), ("fkr1", t("fkg")), ("fkr2", t("fkg", "again ")), ("fkr0", t("fkg"))]
 
 
 def inject_fault(rng, proj):
@@ -206,6 +221,20 @@ def inject_fault(rng, proj):
     elif f == "bad_key":
         t = rng.choice(unit["trees"])
         t.append(("1 bad key", ("str", "v")))
+    elif f.startswith("fk_"):
+        # top level or inside a subkey group; in one locale or (the same fault) in every locale
+        nested = rng.random() < 0.4
+        ns = (unit["ns"] + ":") if unit["ns"] else ""
+        grp = "fkgrp"
+        ref = (lambda n: "%s%s.%s" % (ns, grp, n)) if nested else (lambda n: ns + n)
+        members = fk_fault_members(f, ref)
+        where = list(range(len(unit["trees"]))) if rng.random() < 0.4 else [rng.randrange(len(unit["trees"]))]
+        for li in where:
+            t = unit["trees"][li]
+            if nested:
+                t.append((grp, ("obj", list(members))))
+            else:
+                t.extend(members)
 
 
 def gen_project(rng):
@@ -218,7 +247,7 @@ def gen_project(rng):
         d = gen_tree(rng, 0, None, plurals)
         units.append({"ns": ns, "trees": [d] + [derive_tree(rng, d) for _ in locales[1:]]})
     proj = {"locales": locales, "units": units, "fault": None}
-    if rng.random() < 0.15:
+    if rng.random() < 0.25:
         inject_fault(rng, proj)
     return proj
 
@@ -490,14 +519,35 @@ def same_format_view(d):
     """everything, for runs of one format (orders, repetitions)"""
     if d["result"][0] == "ok":
         return ("ok", d["D"], tuple(d["W"]), tuple(d["K"]), tuple(sorted((k, tuple(v)) for k, v in d["T"].items())))
-    return (tuple(d["result"][:2]),)
+    # an error: variant and full text (every key path / locale / file it names); only line/column numbers are stripped
+    return (tuple(d["result"][:2]), ERR_POS.sub("", d["E"] or ""))
 
 
-def cross_format_view(d):
-    """keys, diagnostics, final values (numeric literal types normalised), string tables"""
+ERR_POS = re.compile(r',?\s*line: \d+|,?\s*column: \d+|,?\s*location: (?:None|Some\(Location \{[^}]*\}\))| at line \d+ column \d+')
+ERR_MSG = re.compile(r'(?:Error\(|msg: )"((?:[^"\\]|\\.)*)"')
+
+
+def error_core(d, fmt):
+    """what an error says, without the front-end's wrapping: (variant, file it names without extension, message).
+    serde_yaml prefixes the message with the path of the value inside the document (`uf: Unknown formatter ...`)."""
+    e = (d["E"] or "").replace("\\\\", "\\")
+    variant = d["result"][1] if len(d["result"]) > 1 else "?"
+    if variant == "LocaleFileDeser":
+        m = re.search(r'path: "([^"]*)"', e)
+        stem = os.path.splitext(m.group(1))[0] if m else ""
+        m2 = ERR_MSG.search(e)
+        msg = ERR_POS.sub("", m2.group(1) if m2 else e)
+        if fmt == "yaml":
+            msg = re.sub(r'^[^\s"\\]+: ', "", msg)
+        return (variant, stem, msg)
+    return (variant, "", ERR_POS.sub("", e))
+
+
+def cross_format_view(d, fmt=None):
+    """keys, diagnostics, final values (numeric literal types normalised), string tables; for an error its variant and message"""
     if d["result"][0] == "ok":
         return ("ok", tuple(d["W"]), tuple((a, b, c, norm_num(v)) for a, b, c, v in d["K"]), tuple(sorted((k, tuple(v)) for k, v in d["T"].items())))
-    return (tuple(d["result"][:2]),)
+    return (tuple(d["result"][:2]), error_core(d, fmt))
 
 
 # ------------------------------------------------------------------ Coq cases
@@ -527,18 +577,47 @@ def coq_path(p):
     return core.coq_list([core.coq_str(k) for k in p])
 
 
-def coq_jv(tree, look, prefix):
+FK_REF = re.compile(r"\$t\(\s*([A-Za-z0-9_.:-]+)")
+
+
+def refs_of(node, ns):
+    """the key paths the `$t(..)` foreign keys of a value name (inside this unit); a reference into another namespace is outside
+    the Coq model"""
+    texts = []
+
+    def walk(x):
+        if isinstance(x, str):
+            texts.append(x)
+        elif isinstance(x, (list, tuple)):
+            for y in x:
+                walk(y)
+    walk(node[1])
+    out = []
+    for t in texts:
+        for m in FK_REF.finditer(t):
+            tgt = m.group(1)
+            if ":" in tgt:
+                n, tgt = tgt.split(":", 1)
+                if n != ns:
+                    raise OutOfDomain("foreign key into another namespace")
+            elif ns != "-":
+                raise OutOfDomain("foreign key without namespace in a namespaced project")
+            out.append(coq_path(tgt.split(".")))
+    return core.coq_list(out)
+
+
+def coq_jv(tree, look, prefix, ns="-"):
     """tree: member list in file order; look(path) -> (id, pieces) for a leaf"""
     items = []
     for k, v in tree:
         path = prefix + [k.strip()]
         if v[0] == "obj":
-            items.append("(%s, %s)" % (core.coq_str(k), coq_jv(v[1], look, path)))
+            items.append("(%s, %s)" % (core.coq_str(k), coq_jv(v[1], look, path, ns)))
         elif v[0] == "null":
             items.append("(%s, JNull)" % core.coq_str(k))
         else:
             i, ps = look(path, v)
-            items.append("(%s, JLeaf %d %s)" % (core.coq_str(k), i, core.coq_list([core.coq_str(x) for x in ps])))
+            items.append("(%s, JLeaf %d %s %s)" % (core.coq_str(k), i, core.coq_list([core.coq_str(x) for x in ps]), refs_of(v, ns)))
     return "(JObj %s)" % core.coq_list(items)
 
 
@@ -562,17 +641,28 @@ def coq_files(unit_trees, ns, ref, intern):
             if key not in kmap:
                 raise OutOfDomain("no value listed at %r (plural group or foreign key)" % (key,))
             return intern(norm_num(kmap[key])), [unhex(h) for _, h in ref["P"].get(key, [])]
-        t = coq_jv(tree, look, [])
+        t = coq_jv(tree, look, [], ns)
         files.append(t[len("(JObj "):-1])
     return core.coq_list(files)
+
+
+FK_ERRORS = {"RecursiveForeignKey": 4, "MissingForeignKey": 5, "InvalidForeignKey": 6}
 
 
 def coq_result(d, ns, locales, abstract_paths, intern):
     if d["result"][0] != "ok":
         v = d["result"][1]
+        e = (d["E"] or "").replace("\\\\", "\\")
+        if v in FK_ERRORS:
+            # the diagnostic names a locale, a key path and (missing / invalid) the foreign key
+            loc = re.search(r'locale: "([^"]*)"', e).group(1)
+            kp = re.search(r'key_path: KeyPath \{ namespace: [^,]*, path: \[(.*?)\] \}', e).group(1)
+            fk = re.search(r'foreign_key: KeyPath \{ namespace: [^,]*, path: \[(.*?)\] \}', e)
+            unq = lambda t: [x.strip()[1:-1] for x in t.split(",")] if t.strip() else []      # noqa: E731
+            return "(inr (%d, %d, %s, %s))" % (FK_ERRORS[v], locales.index(loc), coq_path(unq(kp)), coq_path(unq(fk.group(1)) if fk else []))
         code = 2 if v == "ExplicitDefaultInDefault" else 3 if v == "SubKeyMissmatch" else \
-            1 if v == "LocaleFileDeser" and "uplicate" in (d["E"] or "") else 99
-        return "(inr %d)" % code
+            1 if v == "LocaleFileDeser" and "uplicate" in e else 99
+        return "(inr (%d, 0, [], []))" % code
     lists, tables, warns = [], [], []
     for li, _ in enumerate(locales):
         ent = []
@@ -610,13 +700,21 @@ def leaf_paths(tree, prefix, acc):
 def coq_cases(proj, runA, runB):
     """runX = (trees_by_unit, dump); one Coq case per unit; raises OutOfDomain"""
     (ta, da), (tb, db) = runA, runB
+    only_ns = None
     if (da["result"][0] != "ok" or db["result"][0] != "ok") and len(proj["units"]) > 1:
-        raise OutOfDomain("error result in a project with several namespaces")
+        # an error of a project with several namespaces belongs to the namespace its key path names (if it names one)
+        m = [re.search(r'key_path: KeyPath \{ namespace: Some\(\\*"([^"\\]*)', x["E"] or "") for x in (da, db)]
+        if not all(m) or m[0].group(1) != m[1].group(1) or da["result"][:2] != db["result"][:2]:
+            raise OutOfDomain("error result in a project with several namespaces")
+        only_ns = m[0].group(1)
     if da["result"][0] == "PANIC" or db["result"][0] == "PANIC":
         raise OutOfDomain("panic")
     items = []
+    names = core.coq_list([core.coq_str(l) for l in proj["locales"]])
     for ui, u in enumerate(proj["units"]):
         ns = u["ns"] or "-"
+        if only_ns is not None and ns != only_ns:
+            continue
         intern = Interner()
         ap = set()
         for li, t in enumerate(ta[ui]):
@@ -626,7 +724,7 @@ def coq_cases(proj, runA, runB):
         fb = coq_files(tb[ui], ns, da, intern)            # same leaves (identities from run A), other member order
         ra = coq_result(da, ns, proj["locales"], ap, intern)
         rb = coq_result(db, ns, proj["locales"], ap, intern)
-        items.append("(mk_case %s %s %s %s)" % (fa, fb, ra, rb))
+        items.append("(mk_case %s %s %s %s %s)" % (names, fa, fb, ra, rb))
     return items
 
 
@@ -681,18 +779,18 @@ def compare_runs(runs):
             va, vb = same_format_view(a["dump"]), same_format_view(b["dump"])
             if va != vb:
                 kind = "run" if a["order"] == b["order"] else "order"
-                what = "result" if va[0] != vb[0] else ["", "BuildersKeys", "warnings", "values", "string tables"][
-                    next(i for i in range(1, len(va)) if va[i] != vb[i])]
+                what = "result" if va[0] != vb[0] else "error text (the key / locale the diagnostic names)" if va[0] != "ok" else \
+                    ["", "BuildersKeys", "warnings", "values", "string tables"][next(i for i in range(1, len(va)) if va[i] != vb[i])]
                 diffs.append((kind, a, b, what))
             elif a["codegen"] is not None and a["codegen"] != b["codegen"]:
                 diffs.append(("run" if a["order"] == b["order"] else "order", a, b, "generated token stream"))
     base = by_fmt[FORMATS[0]][0]
     for fmt in FORMATS[1:]:
         b = by_fmt[fmt][0]
-        va, vb = cross_format_view(base["dump"]), cross_format_view(b["dump"])
+        va, vb = cross_format_view(base["dump"], base["fmt"]), cross_format_view(b["dump"], b["fmt"])
         if va != vb:
-            what = "result" if va[0] != vb[0] else ["", "warnings", "values", "string tables"][
-                next(i for i in range(1, len(va)) if va[i] != vb[i])]
+            what = "result" if va[0] != vb[0] else "error text (the key / locale the diagnostic names)" if va[0] != "ok" else \
+                ["", "warnings", "values", "string tables"][next(i for i in range(1, len(va)) if va[i] != vb[i])]
             diffs.append(("format", base, b, what))
     return diffs
 
@@ -747,7 +845,7 @@ def shrink(bindirs, root, proj, a, b, limit=400):
             return False
         if a["fmt"] == b["fmt"]:
             return same_format_view(ra["dump"]) != same_format_view(rb["dump"])
-        return cross_format_view(ra["dump"]) != cross_format_view(rb["dump"])
+        return cross_format_view(ra["dump"], ra["fmt"]) != cross_format_view(rb["dump"], rb["fmt"])
     n = 0
     progress = True
     while progress and n < limit:
@@ -911,7 +1009,7 @@ def _run(ctx, bindirs, ok, problems, root):
                 "(JSON escapes; JSON5 single quotes, unquoted keys, +n, hex, `.5`, `5.`, trailing commas, comments; YAML plain / single / "
                 "double quoted / literal and folded block scalars, True/NULL/~/empty, hex, octal, block and flow sequences) so that "
                 "visit_str, visit_string, visit_i64/u64/f64, visit_bool, visit_unit, visit_seq and visit_map are reached in every format "
-                "that can produce them, plural groups in 30% of the projects, one injected fault in 15%); each written as JSON, YAML and JSON5 "
+                "that can produce them, plural groups in 30% of the projects, one injected fault in 25%); each written as JSON, YAML and JSON5 "
                 "in sorted, reversed and random member orders (every nesting level permuted), every load and every code generation "
                 "in a fresh process; non-trivial = at least 12 members; compared: full dump + token stream within a format, "
                 "keys/diagnostics/values(numeric types normalised)/string tables across formats; Coq cases = (json sorted, X) pairs",
@@ -960,13 +1058,13 @@ def replay(ctx, path):
     for name, r in (("run A", ra), ("run B", rb)):
         print(name, json.dumps(describe(proj, r), indent=1, ensure_ascii=False)[:3000])
     same = (same_format_view(ra["dump"]) == same_format_view(rb["dump"])) if ra["fmt"] == rb["fmt"] else \
-        (cross_format_view(ra["dump"]) == cross_format_view(rb["dump"]))
+        (cross_format_view(ra["dump"], ra["fmt"]) == cross_format_view(rb["dump"], rb["fmt"]))
     print("implementation: the two runs are", "identical" if same else "DIFFERENT")
     try:
         items = coq_cases(proj, (ra["trees"], ra["dump"]), (rb["trees"], rb["dump"]))
         codes = core.coq_eval(ctx, "c10r_%d" % os.getpid(), PRE, items, "check", min_per_shard=10)
         print("Coq check codes per unit (0 ok, 1 unmodelled, 2 model differs, 3 spec violated):", codes)
-        print("model on run A's files:", core.coq_show(ctx, PRE, "model_result (c_A %s)" % items[0])[:1500])
+        print("model on run A's files:", core.coq_show(ctx, PRE, "let c := %s in model_result (c_names c) (c_A c)" % items[0])[:1500])
         if 3 in codes:
             rc = 1
     except OutOfDomain as e:
